@@ -1,6 +1,8 @@
 SPECIFICATION Spec
 INVARIANT CaseInsensitive
 INVARIANT OffMeansNothingAbsent
+INVARIANT FateNeverUnhides
+INVARIANT UserinfoShapeAlwaysAbsent
 INVARIANT UserinfoAlwaysAbsent
 INVARIANT ExactlySensitive
 INVARIANT Export
